@@ -145,12 +145,17 @@ def check_state(st, op, before_text, rc, mc):
     for i, mf in enumerate(model.filters):
         n = names[i]
         flag = flags[i]
-        pred = not fs.is_filter_disabled(n)
         wrapped = E.is_wrapped(tops[i])
         # the API accepts bytes-typed names everywhere: the same questions asked with the UTF-8 bytes of the name
         nb = n.encode("utf-8")
-        pred_b = not fs.is_filter_disabled(nb)
-        if pred_b != pred or (fs.getfilter(nb) is None) != (fs.getfilter(n) is None):
+        try:
+            pred = not fs.is_filter_disabled(n)
+            pred_b = not fs.is_filter_disabled(nb)
+            same_presence = (fs.getfilter(nb) is None) == (fs.getfilter(n) is None)
+        except Exception as e:
+            return Failure(PROP, "C12.content", "%s: asking about filter %r raised %s: %s (rendered wrapped in 'if false'=%r)" % (
+                label, n, type(e).__name__, e, wrapped), {})
+        if pred_b != pred or not same_presence:
             return Failure(PROP, "C12.agree", "%s: filter %r: is_filter_disabled / getfilter answer differently for the bytes form of the name (%r vs %r)" % (
                 label, n, not pred_b, not pred), {})
         if not (flag == pred == (not wrapped)):
@@ -159,7 +164,10 @@ def check_state(st, op, before_text, rc, mc):
         if flag != mf.enabled:
             clause = "C12.status" if op[0] in ("update", "replace") else "C12.agree"
             return Failure(PROP, clause, "%s: filter %r enabled=%r, the model says %r" % (label, n, flag, mf.enabled), {})
-        got = fs.getfilter(n)
+        try:
+            got = fs.getfilter(n)
+        except Exception as e:
+            return Failure(PROP, "C12.content", "%s: getfilter(%r) raised %s: %s" % (label, n, type(e).__name__, e), {})
         if got is None:
             return Failure(PROP, "C12.content", "%s: getfilter(%r) is None" % (label, n), {})
         try:
